@@ -228,14 +228,19 @@ impl Circuit<F> for FamCircuit {
         let adv1: Vec<_> = (0..params.n_adv1).map(|_| meta.advice_column_in(SecondPhase)).collect();
         let f0 = meta.fixed_column();
         let constants = meta.fixed_column();
-        meta.enable_constant(constants);
+        // A member without any copy constraint has an empty permutation argument (no column is
+        // equality-enabled, no constants column).
+        let need_eq = params.copies || params.const_copies || params.inst_copies || params.unblinded;
+        if need_eq {
+            meta.enable_constant(constants);
+        }
         let instance: Vec<_> =
             (0..params.n_committed + params.n_plain).map(|_| meta.instance_column()).collect();
         // `enable_equality` registers a query at the current rotation: when NextFirst is the
         // first gate it is deferred until after the gates, so that the first advice query of
         // the constraint system is the rotated one.
         let equality_late = params.gates.first() == Some(&GateKind::NextFirst);
-        if !equality_late {
+        if !equality_late && need_eq {
             for c in adv0.iter().chain(adv1.iter()).chain(unblinded.iter()) {
                 meta.enable_equality(*c);
             }
@@ -347,7 +352,7 @@ impl Circuit<F> for FamCircuit {
             }
         }
 
-        if equality_late {
+        if equality_late && need_eq {
             for c in adv0.iter().chain(adv1.iter()).chain(unblinded.iter()) {
                 meta.enable_equality(*c);
             }
